@@ -1472,3 +1472,103 @@ def n8(facts, tier):
                          f"{tname}::get_definition(version) describes its nested interface `{nested}` at a fixed version "
                          f"({a.get('int', a.get('k'))}) instead of `version`: the definition of an older version carries the newest nested "
                          f"interface, so the ledger rejects a compatible evolution (and negotiation compares the wrong nested definitions)")
+
+
+# ---------------------------------------------------------------------------------------------
+# N9: a wake-up crosses the ABI boundary every time
+
+def must_call(n, pred, facts=None, depth=0):
+    """does every path through expression n (that completes normally) evaluate a call satisfying pred? Early exits (return, break,
+    `?`) before the call make the answer False; loops count only for what precedes them"""
+    if not isinstance(n, dict):
+        return False
+    k = n.get("k")
+    if k == "Call":
+        if pred(n):
+            return True
+        return any(must_call(a, pred, facts, depth) for a in n.get("args", []))
+    if k == "Block":
+        for s in n.get("stmts", []):
+            if must_call(s, pred, facts, depth):
+                return True
+            if any(y.get("k") in ("Return", "Break", "Continue", "Try") for y in walk(s)):
+                return False
+        return must_call(n["e"], pred, facts, depth) if n.get("e") is not None else False
+    if k == "If":
+        if must_call(n["c"], pred, facts, depth):
+            return True
+        return n.get("f") is not None and must_call(n["t"], pred, facts, depth) and must_call(n["f"], pred, facts, depth)
+    if k == "Match":
+        if must_call(n["e"], pred, facts, depth):
+            return True
+        return bool(n.get("arms")) and all(must_call(a["body"], pred, facts, depth) for a in n["arms"])
+    if k == "Logic":
+        return must_call(n["l"], pred, facts, depth)
+    if k in ("Loop", "For", "While", "Closure", "Return", "Break", "Continue"):
+        return False
+    if k == "LetS":
+        return n.get("init") is not None and must_call(n["init"], pred, facts, depth)
+    return any(must_call(c, pred, facts, depth) for c in children(n))
+
+
+def _is_callback_call(x):
+    c = callee(x) or ""
+    return c in ("core::ops::function::Fn::call", "core::ops::function::FnMut::call_mut", "core::ops::function::FnOnce::call_once")
+
+
+@rule("N9", ["C09", "C16"], floor=6, doc="a wake-up crosses the ABI boundary every time: AbiWaker::wake / wake_by_ref call the stored callback on every "
+      "path, the generated Future::poll hands abi_poll a closure that wakes the executor's waker on every call, and the generated abi_poll "
+      "passes that callback to AbiWaker::new unwrapped (a wake-up that is filtered, coalesced or conditional leaves a task pending for ever)")
+def n9(facts, tier):
+    P = ["C09", "C16"]
+    # (a) the library's waker
+    for name in ("wake", "wake_by_ref"):
+        fid = f"<savefile_abi::AbiWaker as alloc::task::Wake>::{name}"
+        f = facts.fns.get(fid)
+        if f is None:
+            yield ob(P, "N9", fid, "violation", "", f"{fid} not found")
+            continue
+
+        def fwd(x, f=f):
+            c = callee(x) or ""
+            if _is_callback_call(x) and any(y.get("k") == "Field" for y in walk(x["args"][0])):
+                return True
+            return c in ("alloc::task::Wake::wake_by_ref", "alloc::task::Wake::wake") and (x.get("self_ty") or "").endswith("AbiWaker") \
+                and not c.endswith("::" + f["name"])
+        ok = must_call(f["body"], fwd, facts)
+        yield ob(P, "N9", fid, "pass" if ok else "violation", where(f),
+                 "the stored callback is called on every path" if ok else
+                 f"{fid}: the stored callback is not called on every path (conditional, coalesced or skipped wake-up): a future that keeps "
+                 f"a waker from an earlier poll and is woken again is never polled again across the ABI boundary")
+    # (b) + (c) generated wrappers
+    for fid, f in sorted(facts.fns.items()):
+        if f["crate"] != "sfcorpus" or not f.get("body"):
+            continue
+        if fid.endswith("as core::future::future::Future>::poll"):
+            for x in calls(f["body"]):
+                if (callee(x) or "").endswith("::abi_poll"):
+                    cls = [y for a in x["args"][1:] for y in walk(a) if y.get("k") == "Closure"]
+                    ok = False
+                    if len(cls) == 1 and facts.fns.get(cls[0]["id"]):
+                        cf = facts.fns[cls[0]["id"]]
+                        ok = must_call(cf["body"], lambda z: (callee(z) or "").endswith(("task::wake::Waker::wake_by_ref", "task::wake::Waker::wake")), facts)
+                    yield ob(P, "N9", fid, "pass" if ok else "violation", where(f, x),
+                             "the closure handed to abi_poll wakes the executor's waker on every call" if ok else
+                             f"{fid}: the closure handed to abi_poll does not wake the executor's waker on every call (or is not a plain "
+                             f"closure): wake-ups from the implementation are filtered before they reach the executor")
+        if fid.endswith("::abi_poll") and "future_wrapper" in fid:
+            params = [p["pat"]["v"] for p in f.get("params", []) if (p.get("pat") or {}).get("k") == "Bind"]
+            for x in calls(f["body"]):
+                if (callee(x) or "").endswith("AbiWaker::new"):
+                    a = peel(x["args"][0])
+                    while a.get("k") in ("Coerce", "Cast", "Use"):
+                        a = peel(a["e"])
+                    ok = a.get("k") == "Var" and a.get("v") in params
+                    if not ok and a.get("k") == "Call" and (callee(a) or "").endswith("Box::new"):
+                        cls = [y for y in walk(a) if y.get("k") == "Closure"]
+                        if len(cls) == 1 and facts.fns.get(cls[0]["id"]):
+                            ok = must_call(facts.fns[cls[0]["id"]]["body"], _is_callback_call, facts)
+                    yield ob(P, "N9", fid, "pass" if ok else "violation", where(f, x),
+                             "the caller's wake callback is handed to AbiWaker::new as received" if ok else
+                             f"{fid}: AbiWaker::new does not receive the caller's wake callback as it is (it is wrapped in a closure that does "
+                             f"not call it on every path): wake-ups are filtered before they cross the ABI boundary")
